@@ -844,8 +844,17 @@ def compare(case, out, model):
     n = len(out["outs"])
     args = out["choice_args"] or []
     if len(args) != n:
-        v.append((f"{PID}/{ep}/predict/choice-calls", f"{len(args)} choice calls for {n} rows",
-                  "one choice per row", "correspondence"))
+        # the scripted RandomState was not asked for (all of) the draws: if some query row has two
+        # positive-weight predictors with different outputs, the returned values cannot be the ones the
+        # given random_state determines -> the property itself fails (not reproducible from random_state)
+        wid0 = dict(zip(idx, w))
+        T0 = out["n_hs"]
+        nondet = any(len({out["outs"][i][t] for t in range(T0) if wid0.get(t, 0.0) > 1e-9}) > 1 for i in range(n))
+        v.append((f"{PID}/{ep}/predict/choice-calls", f"{len(args)} choice calls on the given random_state for {n} "
+                  f"rows ({'some' if nondet else 'no'} row is non-deterministic)",
+                  "every row's predictor is drawn through the random_state argument",
+                  "property" if nondet else "correspondence"))
+        _repro_checks(v, ep, out)
         return v
     wid = dict(zip(idx, w))
     for i in range(n):
@@ -952,7 +961,8 @@ def tags(case, out, model):
         if idx != sorted(idx):
             t.append("weights-index-unsorted")
         wid = dict(zip(idx, out["w_values"]))
-        if any(wid[a] == 0 and any(wid[b] > 0 for b in range(a + 1, out["n_hs"])) for a in range(out["n_hs"])):
+        if any(wid.get(a, 0) == 0 and any(wid.get(b, 0) > 0 for b in range(a + 1, out["n_hs"]))
+               for a in range(out["n_hs"])):
             t.append("zero-weight-predictor-precedes-weighted")
         t.append(f"n_hs:{min(out['n_hs'], 10)}" + ("+" if out["n_hs"] >= 10 else ""))
     if out.get("det_rows"):
